@@ -100,6 +100,15 @@ func (m *MatchHTTP) Match(cx *layer4.Connection) (bool, error) {
 		bufReader := bufio.NewReaderSize(cx, len(data))
 		req, err = http.ReadRequest(bufReader)
 		if err != nil {
+			// A header line that is cut off by the end of the prefetched bytes is reported
+			// as malformed by the parser. Until the request head is complete this only
+			// means that more data is needed.
+			if !bytes.Contains(data, []byte("\r\n\r\n")) && !bytes.Contains(data, []byte("\n\n")) {
+				if len(data) >= layer4.MaxMatchingBytes {
+					return false, layer4.ErrMatchingBufferFull
+				}
+				return false, layer4.ErrConsumedAllPrefetchedBytes
+			}
 			return false, err
 		}
 
